@@ -5,8 +5,10 @@ import PhyModel.Proofs.ConcGibbsMeasure
 /-! # C13 — the concentration update is an exact Gibbs step for the CRP concentration
 
 Property theorems only; helper lemmas live in `Proofs/ConcDensity.lean` (real analysis, Mathlib's
-`gammaPDFReal`, `betaPDFReal`, `beta`) and `Proofs/ConcModel.lean` (the import-free model
-`Model/Conc.lean`).
+`gammaPDFReal`, `betaPDFReal`, `beta`), `Proofs/GibbsTwoStage.lean` (abstract measure theory: two-stage
+Gibbs invariance for densities on a product of s-finite measure spaces), `Proofs/ConcGibbs.lean`,
+`Proofs/ConcGibbsMeasure.lean` (measurability / normalisation of the Beta and Gamma-mixture densities)
+and `Proofs/ConcModel.lean` (the import-free model `Model/Conc.lean`).
 
 What is proved here, for all `a, b > 0`, `α > 0`, `1 ≤ K ≤ n` (only `1 ≤ K`, `1 ≤ n` are needed),
 every value `η ∈ (0,1)` of the auxiliary variable:
@@ -21,14 +23,26 @@ every value `η ∈ (0,1)` of the auxiliary variable:
   are the two exact conditionals of `joint`;
 * `eta_marginal` — `∫₀¹ joint(x, η) dη = Γ(n) · Gamma(a,b)(x) x^K Γ(x)/Γ(x+n)`, the (unnormalised)
   conditional posterior of the concentration given `K` clones and `n` data points;
+* `conc_gibbs` — **the update is an exact Gibbs step**: the kernel
+  `x ↦ (η ~ Beta(x+1, n); x' ~ π(η) Gamma(a+K, b - log η) + (1-π(η)) Gamma(a+K-1, b - log η))`
+  leaves the measure with density `target a b K n` on `(0, ∞)` invariant, in the form
+  `∫ target(x) ∫ Beta(x+1,n)(η) ∫ mixture(η)(x') f(x') dx' dη dx = ∫ target(x') f(x') dx'` for every
+  measurable `f : ℝ → [0, ∞]`.  It is the instance of `GibbsTwoStage.gibbs_two_stage_real` (Tonelli
+  twice) at `eta_conditional`, `alpha_conditional`, `eta_marginal`;
+* `conc_gibbs_measure`, `conc_gibbs_set` — the same with Mathlib's `betaMeasure`, `gammaMeasure`:
+  `∫ P(x' ∈ A | x) dposterior(x) = posterior(A)` for every measurable `A`, where
+  `posterior = posteriorMeasure a b K n` has density `target`; `posterior_finite_pos` — that measure
+  has finite non-zero total mass, so the normalised posterior exists and is invariant too
+  (the identity is homogeneous in `target`);
 * `kn_from_tree` — `K` = number of clones, `n` = number of data points not in the outlier set;
 * `value_in_force` — in the run loop, every trace entry records the value returned by that
   iteration's update and its density was evaluated with the same value.
 
-Full statement (NOT proved here):
-  `theorem conc_gibbs : the Markov kernel  α ↦ (η ~ Beta(α+1, n); α' ~ mixture(η))  leaves the
-   probability measure with density ∝ target a b K n invariant.`
--- OBLIGATION-OPEN conc_gibbs: the measure-theoretic step "drawing each coordinate from its exact conditional density of a joint density leaves the marginal invariant" (Fubini / disintegration for continuous densities) is cited (Escobar & West 1995), not formalised; conc_gibbs_partial assembles every analytic ingredient of it
+Remark (packaging, not an open obligation): the transition kernel is written as the iterated integral
+`x ↦ ∫ mixtureMeasure η dBeta(x+1, n)(η)`, not as a Mathlib `ProbabilityTheory.Kernel` composed with
+`Measure.bind` — that needs measurability of `x ↦ betaMeasure (x+1) n`, hence of `Real.Gamma`, which
+Mathlib does not provide yet.
+
 -- OBLIGATION-OPEN conc_floor: the code floors the Gamma draw at 1e-10 (`Conc.finish`, both branches); all statements here are about the uncensored draw — known finding F12 for 1 <= K
 
 The floating-point evaluation, `np.log`, and scipy's samplers are outside the model. -/
@@ -185,7 +199,7 @@ theorem value_in_force_off (thin : ℕ) (init : ℚ) (draws : List ℚ) :
   · have := loop_false_spec thin draws 0 _ e he
     exact ⟨this.2, this.1⟩
 
-/-- **C13, assembled (partial).**  For the model's inputs (`a, b, α` rational, `L = -log η > 0`
+/-- **C13, the ingredients at the model's parameters.**  For the model's inputs (`a, b, α` rational, `L = -log η > 0`
 rational, i.e. `η = e^{-L}`), `1 ≤ K`, `1 ≤ n`: the model takes the mixture branch with parameters
 `m`, and, over the reals,
  (i)   the Beta draw with the model's parameters is the exact `η`-conditional of `joint` at `α`;
@@ -193,7 +207,7 @@ rational, i.e. `η = e^{-L}`), `1 ≤ K`, `1 ≤ n`: the model takes the mixture
        `m.shape` is the one selected by the Bernoulli outcome) and rate `m.rate = 1/m.scale` is the
        exact conditional of the concentration given `η`, with density `∝ x^(a+K-2)(x+n)e^{-x m.rate}`;
  (iii) the `η`-marginal of `joint` is `Γ(n) ·` the conditional posterior kernel `target`.
-Missing for the full property: see `OBLIGATION-OPEN conc_gibbs` above. -/
+The invariance statement built from these ingredients is `conc_gibbs` below. -/
 theorem conc_gibbs_partial (a b α L : ℚ) (K n : ℕ) (bern : Bool) (ha : 0 < a) (hb : 0 < b)
     (hα : 0 < α) (hL : 0 < L) (hK : 1 ≤ K) (hn : 1 ≤ n) :
     ∃ m : Mix, plan a b α K n L bern = some (.mix m) ∧
@@ -347,6 +361,83 @@ theorem conc_gibbs_set (a b : ℝ) (K n : ℕ) (ha : 0 < a) (hb : 0 < b) (hK : 1
   have := conc_gibbs_measure a b K n ha hb hK hn (A.indicator 1) (measurable_one.indicator hA)
   simpa only [lintegral_indicator_one hA] using this
 
+/-- the second draw is from a probability measure (for `η ∈ (0,1)`; the first is from Mathlib's
+`betaMeasure (x+1) n`, a probability measure by `isProbabilityMeasureBeta`): the update's transition
+kernel is Markov -/
+theorem mixtureMeasure_prob (a b η : ℝ) (K n : ℕ) (ha : 0 < a) (hb : 0 < b) (hK : 1 ≤ K)
+    (hn : 1 ≤ n) (h0 : 0 < η) (h1 : η < 1) : mixtureMeasure a b K n η univ = 1 := by
+  have hK' : (1 : ℝ) ≤ K := by exact_mod_cast hK
+  have hn' : (0 : ℝ) < n := by exact_mod_cast hn
+  obtain ⟨hw0, hw1⟩ := wR_mem ha hb hK' hn' h0 h1
+  have hr : 0 < b - log η := by linarith [log_neg h0 h1]
+  have := isProbabilityMeasure_gammaMeasure (by linarith : 0 < a + (K : ℝ)) hr
+  have := isProbabilityMeasure_gammaMeasure (by linarith : 0 < a + (K : ℝ) - 1) hr
+  unfold mixtureMeasure
+  rw [Measure.add_apply, Measure.smul_apply, Measure.smul_apply, measure_univ, measure_univ,
+    smul_eq_mul, smul_eq_mul, mul_one, mul_one,
+    ← ENNReal.ofReal_add (by exact hw0) (by unfold weight; exact sub_nonneg.mpr hw1)]
+  simp
+
+/-- **The posterior is normalisable.**  `posteriorMeasure a b K n` (density `target`) has finite,
+non-zero total mass, so the probability measure with density `∝ target` exists; by homogeneity of
+`conc_gibbs_set` it is invariant under the update as well. -/
+theorem posterior_finite_pos (a b : ℝ) (K n : ℕ) (ha : 0 < a) (hb : 0 < b) (hK : 1 ≤ K)
+    (hn : 1 ≤ n) :
+    posteriorMeasure a b K n univ ≠ 0 ∧ posteriorMeasure a b K n univ ≠ ⊤ := by
+  have hK' : (1 : ℝ) ≤ K := by exact_mod_cast hK
+  have hn1 : (1 : ℝ) ≤ n := by exact_mod_cast hn
+  have hn' : (0 : ℝ) < n := by linarith
+  have hG : 0 < Gamma n := Gamma_pos_of_pos hn'
+  have hmass : posteriorMeasure a b K n univ
+      = ∫⁻ x in Ioi (0 : ℝ), ENNReal.ofReal (target a b K n x) := by
+    unfold posteriorMeasure
+    rw [withDensity_apply _ MeasurableSet.univ, Measure.restrict_univ]
+  have hpos : ∀ x ∈ Ioi (0 : ℝ), 0 < target a b K n x := fun x hx => by
+    have hx' : (0 : ℝ) < x := hx
+    have := gammaPDFReal_pos ha hb hx'
+    have := Gamma_pos_of_pos hx'
+    have := Gamma_pos_of_pos (by linarith : 0 < x + (n : ℝ))
+    have := rpow_pos_of_pos hx' (K : ℝ)
+    unfold target
+    positivity
+  rw [hmass]
+  constructor
+  · -- positive: `target > 0` on a set of positive Lebesgue measure
+    intro h
+    have hT : AEMeasurable (fun x => ENNReal.ofReal (target a b K n x))
+        (volume.restrict (Ioi (0 : ℝ))) :=
+      (aemeasurable_of_eq_integral (measurable_jointR a b K n) (volume.restrict (Ioo (0 : ℝ) 1))
+        measurableSet_Ioi (Gamma n) _ (fun x hx => eta_marginal a b x K n hx hn)
+        hG.ne').ennreal_ofReal
+    have h0 := (lintegral_eq_zero_iff' hT).mp h
+    rw [Filter.EventuallyEq, ae_restrict_iff' measurableSet_Ioi] at h0
+    have : volume (Ioi (0 : ℝ)) = 0 := by
+      rw [measure_eq_zero_iff_ae_notMem]
+      filter_upwards [h0] with x hx hmem
+      exact (ENNReal.ofReal_pos.mpr (hpos x hmem)).ne' (hx hmem)
+    simp at this
+  · -- finite: Γ(n) · mass = ∫∫ joint < ⊤ (Tonelli and the bounded constant of `alpha_conditional`)
+    have hfin := lintegral_jointR_lt_top (k := K) (n := n) ha hb hK' hn1
+    have hx : ∀ x ∈ Ioi (0 : ℝ), ∫⁻ η in Ioo (0 : ℝ) 1, ENNReal.ofReal (jointR a b K n x η)
+        = ENNReal.ofReal (Gamma n) * ENNReal.ofReal (target a b K n x) := fun x hx => by
+      obtain ⟨Z, hZ⟩ := eta_conditional a b x K n hx hn
+      have hx1 : 0 < x + 1 := by linarith [mem_Ioi.mp hx]
+      rw [← ENNReal.ofReal_mul hG.le, ← eta_marginal a b x K n hx hn]
+      exact (GibbsTwoStage.ofReal_integral_of_factor (volume.restrict (Ioo (0 : ℝ) 1))
+        (joint a b K n x) (betaPDFReal (x + 1) n)
+        ((measurable_jointR a b K n).comp measurable_prodMk_left)
+        (ae_restrict_of_forall_mem measurableSet_Ioo fun η hη =>
+          jointR_nonneg ha hb hn' hx hη.1 hη.2)
+        (ae_restrict_of_forall_mem measurableSet_Ioo fun η hη =>
+          (betaPDFReal_pos hη.1 hη.2 hx1 hn').le)
+        (lintegral_betaPDFReal_Ioo hx1 hn') Z
+        (ae_restrict_of_forall_mem measurableSet_Ioo fun η hη => hZ η hη.1 hη.2)).symm
+    rw [setLIntegral_congr_fun measurableSet_Ioi hx,
+      lintegral_const_mul' _ _ ENNReal.ofReal_ne_top] at hfin
+    intro htop
+    rw [htop, ENNReal.mul_top (by simpa using hG)] at hfin
+    exact lt_irrefl _ hfin
+
 /-! ## Non-vacuity: the hypotheses are satisfiable on concrete non-trivial inputs -/
 
 /-- the run command's prior `a = b = 1/100`, `α = 1`, `K = 2` clones, `n = 5` points, `L = 3/10`:
@@ -360,6 +451,24 @@ example : plan (1/100) (1/100) 1 2 5 (3/10) true = some (.mix
 hypotheses hold at `a = b = 1/100`, `η = 1/2`, `K = 2`, `n = 5`, `x = 1` -/
 example : (0 : ℝ) < 1/100 ∧ (1 : ℕ) ≤ 2 ∧ (1 : ℕ) ≤ 5 ∧ (0 : ℝ) < 1/2 ∧ (1/2 : ℝ) < 1 ∧ (0 : ℝ) < 1 := by
   norm_num
+
+/-- `conc_gibbs`, `conc_gibbs_measure`, `conc_gibbs_set`, `posterior_finite_pos`,
+`mixtureMeasure_prob`: the hypotheses hold at the run command's prior `a = b = 1/100`, `K = 2`,
+`n = 5`, `A = (1, 2]`, `f = 1_A`, `η = 1/2`; by `posterior_finite_pos` the invariance identity is not
+`0 = 0` or `⊤ = ⊤` for `A = univ` -/
+example : let P := posteriorMeasure (1/100) (1/100) 2 5
+    (∫⁻ x, ∫⁻ η, mixtureMeasure (1/100) (1/100) 2 5 η (Ioc 1 2) ∂betaMeasure (x + 1) (5 : ℕ) ∂P
+      = P (Ioc 1 2)) ∧ P univ ≠ 0 ∧ P univ ≠ ⊤ ∧ mixtureMeasure (1/100) (1/100) 2 5 (1/2) univ = 1 ∧
+    Measurable ((Ioc (1 : ℝ) 2).indicator (1 : ℝ → ENNReal)) :=
+  ⟨conc_gibbs_set (1/100) (1/100) 2 5 (by norm_num) (by norm_num) (by norm_num) (by norm_num) _
+      measurableSet_Ioc,
+    (posterior_finite_pos (1/100) (1/100) 2 5 (by norm_num) (by norm_num) (by norm_num)
+      (by norm_num)).1,
+    (posterior_finite_pos (1/100) (1/100) 2 5 (by norm_num) (by norm_num) (by norm_num)
+      (by norm_num)).2,
+    mixtureMeasure_prob (1/100) (1/100) (1/2) 2 5 (by norm_num) (by norm_num) (by norm_num)
+      (by norm_num) (by norm_num) (by norm_num),
+    measurable_one.indicator measurableSet_Ioc⟩
 
 /-- `kn_from_tree`: clone {0,1} with child {2}, an empty sibling clone, outliers {3,4}: `K = 3`
 clones, `n = 3` of the `N = 5` data points -/
